@@ -28,7 +28,7 @@ def ref_product(names):
 
 def r16_1_terms(ctx):
     ctx.rule("R16.1", "WideRatio's op lists compute, as terms over the AVM op semantics, exactly floor((prod N)/(prod D)) by the reference recurrences: 128-bit running products as (high, low) with X = A*C + high(B*C), Y = low(B*C); quotient low word of divmodw returned, quotient high word asserted zero; every step that can overflow uses an op that fails on overflow")
-    W = World(ctx.model)
+    W = World(ctx.model, real_exprs=True)
     mf = ctx.model.find_func("multiplyFactors", "pyteal.ast.widemath")
     ctx.analysed(mf.fq, "pyteal.ast.widemath.WideRatio.__teal__")
     maxn = 4 if ctx.tier == "quick" else 6
@@ -82,11 +82,67 @@ def r16_1_terms(ctx):
     ctx.require_min("R16.1", 10)
 
 
+def r16_2_constructor(ctx):
+    ctx.rule("R16.2", "WideRatio(nums, dens) multiplies and divides by exactly the factors given: the constructor keeps both lists as passed (same expressions, same order, an expression listed on both sides or twice on one side stays listed), and the object built that way lowers to the reference term over those factors")
+    wr = ctx.model.find_class("WideRatio", "pyteal.ast.widemath")
+    init = q.need(wr.methods.get("__init__"), "WideRatio.__init__ vanished")
+    ctx.analysed(init.fq)
+    patterns = {
+        "distinct 2x2": (["a", "b"], ["c", "d"]),
+        "shared factor 2x2": (["a", "s"], ["s", "c"]),
+        "shared factor 3x2": (["s", "a", "b"], ["c", "s"]),
+        "same factor twice in the numerator": (["a", "a"], ["c"]),
+        "both sides identical 2x2": (["s", "t"], ["s", "t"]),
+        "shared factor 2x3": (["a", "s"], ["c", "s", "d"]),
+    }
+    for name, (ns, ds) in patterns.items():
+        W = World(ctx.model, real_exprs=True)
+        kids = {k: W.child(k) for k in set(ns + ds)}
+        nums, dens = [kids[k] for k in ns], [kids[k] for k in ds]
+        construct = f"WideRatio.__init__[{name}]"
+        try:
+            inst = W.construct("WideRatio", [list(nums), list(dens)])
+        except Raised as r:
+            ctx.bad("R16.2", construct, f"refused: {r.exc_text[:60]}", init.where)
+            continue
+        gn, gd = inst.attrs.get("numeratorFactors"), inst.attrs.get("denominatorFactors")
+        same = lambda got, want: isinstance(got, (list, tuple)) and len(got) == len(want) and all(g is w for g, w in zip(got, want))
+        ok = same(gn, nums) and same(gd, dens)
+        ctx.check(ok, "R16.2", construct, f"keeps numerator {[repr(x) for x in gn or []]} / denominator {[repr(x) for x in gd or []]}; given {ns} / {ds} (dropping a factor that is 0 at run time turns a failing division into a result)", init.where, fact={"numerator": len(gn or []), "denominator": len(gd or [])})
+        if not ok:
+            continue
+        try:
+            val = inst.methods["__teal__"](W.options(10))
+            ops = W.chain(val[0], val[1])
+            stack, asserted, _t = term_run(W, ops, ["BASE"])
+        except (StackError, Raised) as e:
+            ctx.bad("R16.2", construct + ":lowering", f"op list cannot be evaluated: {e}", init.where)
+            continue
+        nh, nl = ref_product(ns)
+        dh, dl = ref_product(ds)
+        want = norm_term(("divmodw", (nh, nl, dh, dl), 1))
+        ctx.check(len(stack) == 2 and norm_term(stack[-1]) == want, "R16.2", construct + ":lowering", f"lowers to {norm_term(stack[-1]) if len(stack) > 1 else None}; reference {want}", init.where, fact={"ops": len(ops)})
+    # fewer than one factor on a side is refused
+    for ns, ds in (([], ["a"]), (["a"], [])):
+        W = World(ctx.model, real_exprs=True)
+        try:
+            W.construct("WideRatio", [[W.child(k) for k in ns], [W.child(k) for k in ds]])
+            out = "accepted"
+        except Raised as r:
+            out = "refused"
+        ctx.check(out == "refused", "R16.2", f"WideRatio.__init__[{len(ns)}x{len(ds)}]", f"an empty factor list is {out}", init.where, fact={})
+    ctx.require_min("R16.2", 10)
+
+
 def run(ctx):
     r16_1_terms(ctx)
+    r16_2_constructor(ctx)
     from rules import c05 as _c05
 
     _c05.r05_3_literal_op_lists(ctx)
+    from rules import c12 as _c12
+
+    _c12.r12_1_sites(ctx)  # constant factors: with assembleConstants every factor site still loads the constant written there (shared with C12)
     return (
         "Abstract evaluation of WideRatio.__teal__/multiplyFactors for all factor counts up to a bound; the emitted op list is pushed through a term-level stack machine driven by "
         "the AVM op signatures and the resulting term is compared (modulo commutativity) with the reference recurrences, whose arithmetic identity "
